@@ -13,41 +13,38 @@ Definition ifmap := list (iface * props).
 Definition view := list (path * ifmap).          (* object path -> interfaces *)
 Definition views := list (path * view).          (* manager path -> view *)
 
+(* association lists read with first-match lookup: a newer binding in front shadows older ones *)
 Fixpoint if_get (m : ifmap) (k : iface) : option props :=
   match m with [] => None | (k', ps) :: r => if iface_eqb k k' then Some ps else if_get r k end.
 Definition if_del (m : ifmap) (k : iface) : ifmap := filter (fun e => negb (iface_eqb k (fst e))) m.
-Definition if_put (m : ifmap) (e : iface * props) : ifmap := e :: if_del m (fst e).
 
 Fixpoint v_get (v : view) (o : path) : option ifmap :=
   match v with [] => None | (o', m) :: r => if path_eqb o o' then Some m else v_get r o end.
-Definition v_del (v : view) (o : path) : view := filter (fun e => negb (path_eqb o (fst e))) v.
-Definition v_put (v : view) (o : path) (m : ifmap) : view := (o, m) :: v_del v o.
 
 Fixpoint vs_get (vs : views) (m : path) : option view :=
   match vs with [] => None | (m', v) :: r => if path_eqb m m' then Some v else vs_get r m end.
-Definition vs_del (vs : views) (m : path) : views := filter (fun e => negb (path_eqb m (fst e))) vs.
-Definition vs_put (vs : views) (m : path) (v : view) : views := (m, v) :: vs_del vs m.
 
 Definition view_of (vs : views) (m : path) : view := match vs_get vs m with Some v => v | None => [] end.
 
-(* InterfacesAdded(obj, ifs): the object gains these interfaces (properties overwritten).
-   InterfacesRemoved(obj, ks): a known object loses these interfaces. *)
+(* InterfacesAdded(obj, ifs): the object gains these interfaces, with these properties (replacing
+   what was known of them).   InterfacesRemoved(obj, ks): a known object loses these interfaces. *)
 Definition apply_view (v : view) (s : signal) : view :=
   match s with
   | SAdded _ o ifs =>
       let cur := match v_get v o with Some m => m | None => [] end in
-      v_put v o (fold_left if_put ifs cur)
+      (o, ifs ++ cur) :: v
   | SRemoved _ o ks =>
       match v_get v o with
-      | Some m => v_put v o (fold_left if_del ks m)
+      | Some m => (o, fold_left if_del ks m) :: v
       | None => v
       end
   end.
 
 Definition sig_mgr (s : signal) : path := match s with SAdded m _ _ => m | SRemoved m _ _ => m end.
 
+(* a signal is applied to the view kept for its emitter *)
 Definition apply_signal (vs : views) (s : signal) : views :=
-  let m := sig_mgr s in vs_put vs m (apply_view (view_of vs m) s).
+  let m := sig_mgr s in (m, apply_view (view_of vs m) s) :: vs.
 
 Definition apply_signals (vs : views) (ss : list signal) : views := fold_left apply_signal ss vs.
 
